@@ -238,7 +238,31 @@ for step in (0, 1, 2):
         obs = Observation(parameters=[ParameterValues(key='pipeline.photon_collection.w.arguments.photon', values=[1.0, 2.0])], readout=Readout(times=[1.0, 2.0, 3.0]), with_dask=True)
         check(f'dask observation, fault at step {step} of every run', lambda: pyxel.run_mode(mode=obs, detector=VP.detector(), pipeline=pipe))
 """, "expect": "run_mode lets the failing model's exception through: when earlier runs have written output files, at any readout step, with or without a progress bar, sequentially or through dask"}
-STANDIN = {r"no_swallow": RUNMODE_REPLAY}
+BODY_ERRORS_REPLAY = lambda w: {"code": """
+import types, sys, verif_probes as VP
+from pyxel.pipelines import DetectionPipeline, ModelFunction, Processor
+from pyxel.exposure import Readout, run_pipeline
+mod = types.ModuleType('c09_body')
+def faulty(detector, level=1.0, kind='TypeError'):
+    VP.probe(detector, level=level)
+    if kind == 'TypeError':
+        return float(level) + None                      # a genuine TypeError raised INSIDE a correctly called model
+    raise {'ValueError': ValueError, 'KeyError': KeyError, 'AttributeError': AttributeError, 'ZeroDivisionError': ZeroDivisionError, 'OSError': OSError}[kind]('original message 4711')
+mod.faulty = faulty
+sys.modules['c09_body'] = mod
+VIOLATED, DETAIL = False, 'an error raised in the body of a model reaches the caller as that error, message included'
+for kind in ('TypeError', 'ValueError', 'KeyError', 'AttributeError', 'ZeroDivisionError', 'OSError'):
+    pipe = DetectionPipeline(photon_collection=[ModelFunction(func='c09_body.faulty', name='f', arguments={'level': 2.0, 'kind': kind})])
+    try:
+        run_pipeline(processor=Processor(detector=VP.detector(), pipeline=pipe), readout=Readout(times=[1.0]), outputs=None, debug=False, with_inherited_coords=False)
+        VIOLATED, DETAIL = True, f'{kind} raised in a model body: the run returned normally'; break
+    except Exception as e:
+        text = str(e) + ' '.join(getattr(e, '__notes__', []))
+        want = 'NoneType' if kind == 'TypeError' else 'original message 4711'
+        if type(e).__name__ != kind or want not in text:
+            VIOLATED, DETAIL = True, f'{kind} raised in a model body surfaced as {type(e).__name__}: {str(e)[:120]!r} (original message lost: {want!r} not in it)'; break
+""", "expect": "errors raised inside a model body (TypeError included) reach the caller with their own message"}
+STANDIN = {r"no_swallow": RUNMODE_REPLAY, r"no_swallow\[ModelFunction|no_swallow\[ModelGroup": BODY_ERRORS_REPLAY}
 
 
 TRANSPARENT_CMS = {"warnings.catch_warnings", "np.errstate", "numpy.errstate", "ThreadPoolExecutor", "change_pipeline", "dask.config.set", "tempfile.TemporaryDirectory", "TemporaryDirectory", "SimpleTimer", "ProgressBar", "tqdm", "tqdm.auto.tqdm"}
